@@ -13,6 +13,7 @@ import (
 	"bytes"
 	"encoding/json"
 	"fmt"
+	"math/rand"
 	"os"
 	"runtime"
 	"sync"
@@ -416,6 +417,64 @@ func run(c *vf.Ctx) {
 			}
 		}
 	}
+	// ---- repeated key set-ups on one session pair: fresh client keys, and a request that is served a second time (a
+	// client that re-sends its hello with the same key-exchange share): frames are sealed in between on both sides
+	rng := rand.New(rand.NewSource(c.Seed + 15))
+	for round := 0; round < c.Pick(60, 1200); round++ {
+		e := newE2E(a, b)
+		events = append(events, map[string]any{"ev": "reset"})
+		keyID := map[string]int{}
+		sealSome := func() {
+			for k := 0; k < 1+rng.Intn(6); k++ {
+				x := []string{"A", "B"}[rng.Intn(2)]
+				cls := []string{"r", "r", "p"}[rng.Intn(3)]
+				_, seq, err := e.seal(x, cls)
+				c.Eval(1)
+				if err != nil {
+					continue
+				}
+				out, _ := e.keys(x)
+				id, ok := keyID[string(out)]
+				if !ok {
+					id = len(keyID) + 1
+					keyID[string(out)] = id
+				}
+				events = append(events, map[string]any{"ev": "sealed2", "side": x, "key": id, "cls": cls, "seq": int(seq)})
+			}
+		}
+		sealSome()
+		var lastKx []byte
+		var lastKxt string
+		lastServer := "B"
+		for step := 0; step < 2+rng.Intn(4); step++ {
+			cl, sv := "A", "B"
+			if rng.Intn(2) == 0 {
+				cl, sv = "B", "A"
+			}
+			scl, _, _ := e.sess(cl)
+			ssv, _, _ := e.sess(sv)
+			what := "fresh"
+			if lastKx != nil && rng.Intn(2) == 0 {
+				// the same request arrives again at the router that served it
+				ssv, _, _ = e.sess(lastServer)
+				_, _, _ = ssv.Encryption().InitKeyServer(lastKx, lastKxt)
+				what = "same-request-served-again"
+			} else {
+				kx, kxt, err := scl.Encryption().InitKeyClientStart()
+				if err != nil {
+					continue
+				}
+				rk, rkt, err := ssv.Encryption().InitKeyServer(kx, kxt)
+				if err == nil {
+					_ = scl.Encryption().InitKeyClientComplete(rk, rkt)
+				}
+				lastKx, lastKxt, lastServer = append([]byte(nil), kx...), kxt, sv
+			}
+			events = append(events, map[string]any{"ev": "rekey", "what": what})
+			c.Distinct("rekey|" + what)
+			sealSome()
+		}
+	}
 	rejectAt, inv, tres, err := c.TraceCheck("KeyRollover_Trace", "KeyRollover_Trace.cfg", events, vf.TLCOpts{Timeout: 20 * time.Minute, Heap: "8g"})
 	if err != nil {
 		c.Fatal("T: %v", err)
@@ -425,7 +484,11 @@ func run(c *vf.Ctx) {
 	c.Stage("T", map[string]any{"runs": runs, "events": len(events), "wall_s": tres.Wall.Seconds()})
 	if rejectAt > 0 || inv != "" {
 		ev := events[rejectAt-1].(map[string]any)
-		c.Violation(vf.Key("concurrent", ev["cls"], ev["why"]), fmt.Sprintf("concurrent sealing: event %v is not allowed by KeyRollover_Trace (line %d)", ev, rejectAt), ev, nil)
+		if ev["ev"] == "sealed2" {
+			c.Violation(vf.Key("rekey-nonce", ev["cls"]), fmt.Sprintf("repeated key set-ups on one session pair: a frame was sealed with a (key, class, sequence number) that was used before - %v (KeyRollover_Trace line %d)", ev, rejectAt), ev, nil)
+		} else {
+			c.Violation(vf.Key("concurrent", ev["cls"], ev["why"]), fmt.Sprintf("concurrent sealing: event %v is not allowed by KeyRollover_Trace (line %d)", ev, rejectAt), ev, nil)
+		}
 	}
 	c.Logf("T: %d events of %d concurrent runs validated", len(events), runs)
 }
